@@ -626,7 +626,7 @@ def cell_features(tlib, kind):
     return f
 
 
-def rand_lib_circuit(rng, tlib, n_inst=None, p_unconn_in=0.08, p_unconn_out=0.15, special=None):
+def rand_lib_circuit(rng, tlib, n_inst=None, p_unconn_in=0.08, p_unconn_out=0.15, special=None, only=None):
     """random circuit instantiating library cells (Verilog-reader style: port cells and signal forks)"""
     from kyupy.circuit import Circuit, Node, Line
     c = Circuit('lib')
@@ -638,6 +638,7 @@ def rand_lib_circuit(rng, tlib, n_inst=None, p_unconn_in=0.08, p_unconn_out=0.15
     for k in range(n_inst):
         special = [k for k in (special or []) if k in tlib.cells]
         kind = rng.choice(special) if special and rng.random() < 0.5 else rng.choice(rng.choice(groups))
+        if only: kind = rng.choice(only)          # instances of the given kinds only (cells certified for resolve_datasheet_sem)
         pd = tlib.cells[kind][1]
         u = Node(c, f'u{k}', kind)
         for p, (idx, isout) in pd.items():
@@ -1101,7 +1102,13 @@ def corr_resolve(ck, n):
         else:
             tl = rng.choice(LIBS); special = SPECIAL.get(tl); libtag = tl
         tlib = get_tlib(tl)
-        c = rand_lib_circuit(rng, tlib, special=special, p_unconn_in=rng.choice([0.0, 0.08, 0.2]), p_unconn_out=rng.choice([0.0, 0.15, 0.4]))
+        only = None
+        if libtag in LIBS and rng.random() < 0.3:
+            # circuits over cells of the listed families only, input pins connected, outputs partly open: the hypotheses of
+            # resolve_datasheet_sem(_general) are reachable (an instance with an open output is covered by the general form only)
+            only = [k for k in sorted(tlib.cells) if cell_cert(libtag, k)[0] == 'ok']
+        c = rand_lib_circuit(rng, tlib, special=special, p_unconn_in=0.0 if only else rng.choice([0.0, 0.08, 0.2]),
+                             p_unconn_out=rng.choice([0.0, 0.15, 0.4]), only=only)
         if rng.random() < 0.4: c = permuted(rng, c)
         kinds = sorted({x.kind for x in c.nodes if x.kind in tlib.cells})
         c0json = to_json(c)
@@ -1167,7 +1174,8 @@ def corr_resolve(ck, n):
             except Exception as ex:
                 ck.broken_tie('resolve_sem hypotheses', f'driver: {type(ex).__name__}: {ex}'[:300], inp={'request': req[:4000]})
         ck.case(key=('resolve', req), nontrivial=real != 'raise' and len(kinds) > 0,
-                tag=['stream:corr-resolve', f'lib:{libtag}', f'instances:{min(len(kinds), 4)}', f"resolve-result:{'raise' if real == 'raise' else 'ok'}", semtag, dstag])
+                tag=['stream:corr-resolve', f'lib:{libtag}', f'instances:{min(len(kinds), 4)}', f"resolve-result:{'raise' if real == 'raise' else 'ok'}", semtag, dstag] +
+                    (['gen:listed-families-only'] if only else []))
     ck.extra['corr_resolve_in_hypotheses_of_resolve_datasheet_sem'] = covered_ds
     ck.extra['corr_resolve_in_hypotheses_of_resolve_datasheet_sem_general_only'] = covered_ds_gen
     ck.extra['corr_resolve_ds_hyp'] = dict(ds_tally)
